@@ -12,18 +12,32 @@ PROP = "C02"
 RULE = ("control-flow skeletons over {if, for(-else), while(-else), try/except/else/finally, with(1-2 managers), assert, "
         "raise / raise-from / bare raise, break, continue, return}: (A) every construct with every jump in every block "
         "slot, (B) pairs outer-construct x slot x inner-construct x slot x jump, (C) random nestings to depth 6; each with "
-        "random decision tapes.  Distinct by (program, tape); non-trivial when the program contains at least one compound "
-        "statement.")
+        "random decision tapes.  (K) the same skeletons as `async def`, left by BaseException-only exceptions: raise of "
+        "B0 / SystemExit / KeyboardInterrupt / GeneratorExit, and a REAL task cancellation (task.cancel() from the driver "
+        "while the function is suspended at `await S(i)`) in every slot of every construct (bare, in a loop, inside "
+        "try/finally, inside a suppressing manager) + random nestings; all four columns (pyscript, CPython, Lean model "
+        "of today's code, Lean reference) with the finally / __exit__ events in the compared log.  (R) recursion from "
+        "inside a finally clause / a script-defined __exit__ while `return <value>` of the same statement is pending; "
+        "(W) 2-3 concurrent tasks (one AstEval each, shared EvalFunc) running the same function whose finally clause / "
+        "__aexit__ suspends on a gate with `return <value>` pending, every start/release order: each activation must get "
+        "its own value (also tied to the Lean marker-store model).  Distinct by (program, tape / schedule); non-trivial "
+        "when the program contains at least one compound statement.")
 ASSUMPTIONS = [
     "tracer T(i), the managers CM and the exception classes are host objects shared by both interpreters",
     "exceptions are compared by class and class of __cause__; tracebacks are C18's subject",
-    "BaseException-only classes are outside the Lean model (value stream only, finding C02-F4)",
+    "a deviation on a program with a BaseException-only exception is excused as C02-F4 ONLY when the Lean model of today's "
+    "code (except clauses / __exit__ info skipped, finally ALWAYS run) reproduces pyscript's whole log and outcome",
+    "cancellation is delivered by task.cancel() while the task waits at `await S(i)`; the tape value 2 at S(i) selects it",
+    "return values are per activation: checked (families R, W), not assumed - one AstEval per task as in trigger runs",
 ]
 TRUSTED = ["harness/run_C02.py (program renderer to Python source and to the driver's S-expressions)",
            "CPython itself as the oracle for the reference semantics (spec column == CPython on every case)"]
 
-CLS = {0: "Exception", 10: "E0", 11: "E1", 12: "E2", 13: "B0"}
-CLSNUM = {"E0": 10, "E1": 11, "E2": 12, "B0": 13, "RuntimeError": 100, "AssertionError": 101, "TypeError": 102}
+CLS = {0: "Exception", 1: "BaseException", 10: "E0", 11: "E1", 12: "E2",
+       200: "B0", 202: "SystemExit", 203: "KeyboardInterrupt", 204: "GeneratorExit"}
+CLSNUM = {"E0": 10, "E1": 11, "E2": 12, "RuntimeError": 100, "AssertionError": 101, "TypeError": 102,
+          "B0": 200, "CancelledError": 201, "SystemExit": 202, "KeyboardInterrupt": 203, "GeneratorExit": 204}
+BASE_ONLY = [200, 202, 203, 204]
 
 
 # ------------------------------------------------------------------ program representation
@@ -57,7 +71,9 @@ class Gen:
         if kind == "assert":
             return [("assert", next(self.t))]
         if kind == "raiseB0":
-            return [self.T(), ("raise", 13, None)]
+            return [self.T(), ("raise", self.rng.choice(BASE_ONLY), None)]
+        if kind == "suspend":
+            return [self.T(), ("S", next(self.t))]
         raise ValueError(kind)
 
 
@@ -65,7 +81,9 @@ LEAVES = ["fall", "break", "continue", "ret", "raiseE1", "raiseE2", "raisefrom",
 CONSTRUCTS = ["if", "ifelse", "for", "forelse", "while", "whileelse", "tryexc", "tryfin", "tryfull", "tryany",
               "with1", "with1s", "with2", "with2s", "with1e", "with1b", "with1bs", "with2b", "with2bs", "with1a",
               "tryexcT", "tryexcR", "with1x", "with1xs", "with2x"]
-SLOTS = {"if": 1, "ifelse": 2, "for": 1, "forelse": 2, "while": 1, "whileelse": 2, "tryexc": 2, "tryfin": 2,
+KCONSTRUCTS = CONSTRUCTS + ["tryB", "tryBE"]      # family K only: clauses that name a BaseException-only class / BaseException
+KLEAVES = ["raiseB0", "suspend"]
+SLOTS = {"tryB": 2, "tryBE": 3, "if": 1, "ifelse": 2, "for": 1, "forelse": 2, "while": 1, "whileelse": 2, "tryexc": 2, "tryfin": 2,
          "tryfull": 4, "tryany": 2, "with1": 1, "with1s": 1, "with2": 1, "with2s": 1, "with1e": 1,
          "with1b": 1, "with1bs": 1, "with2b": 1, "with2bs": 1, "with1a": 1,
          "tryexcT": 3, "tryexcR": 3, "with1x": 1, "with1xs": 1, "with2x": 1}
@@ -93,6 +111,10 @@ def build(g, construct, blocks):
         return ("try", b[0], [([12], [g.T()]), (None, b[1])], [], [])
     if construct == "tryfin":
         return ("try", b[0], [], [], b[1])
+    if construct == "tryB":
+        return ("try", b[0], [([200, 202], b[1])], [], [g.T()])
+    if construct == "tryBE":
+        return ("try", b[0], [([12], [g.T()]), ([1], b[1])], b[2], [g.T()])
     if construct == "tryfull":
         return ("try", b[0], [([12, 11], b[1])], b[2], b[3])
     if construct == "with1":
@@ -131,17 +153,17 @@ def build(g, construct, blocks):
     raise ValueError(construct)
 
 
-def random_block(g, depth, rng, maxlen=3):
+def random_block(g, depth, rng, maxlen=3, leaves=None, constructs=None):
     out = []
     for _ in range(rng.randrange(1, maxlen + 1)):
         if depth > 0 and rng.random() < 0.55:
-            c = rng.choice(CONSTRUCTS)
-            blocks = [random_block(g, depth - 1, rng, 2) for _ in range(SLOTS[c])]
+            c = rng.choice(constructs or CONSTRUCTS)
+            blocks = [random_block(g, depth - 1, rng, 2, leaves, constructs) for _ in range(SLOTS[c])]
             out.append(build(g, c, blocks))
             if rng.random() < 0.5:
                 out.append(g.T())
         else:
-            out.extend(g.leaf(rng.choice(LEAVES)))
+            out.extend(g.leaf(rng.choice(leaves or LEAVES)))
     return out
 
 
@@ -189,6 +211,34 @@ def gen_programs(rng, tier, search):
     return progs
 
 
+def gen_k_programs(rng, tier, search):
+    """family K: skeletons left by BaseException-only exceptions (raise of such a class / cancellation at `await S(i)`)"""
+    progs = []
+    for c in KCONSTRUCTS:
+        for slot in range(SLOTS[c]):
+            for leaf in KLEAVES:
+                for wrap in ("bare", "loop", "tryfin", "with"):
+                    g = Gen(rng)
+                    blocks = [g.leaf(leaf) if s == slot else g.leaf("fall") for s in range(SLOTS[c])]
+                    body = [build(g, c, blocks), g.T()]
+                    if wrap == "loop":
+                        body = wrap_loop(g, body)
+                    elif wrap == "tryfin":
+                        body = [("try", body, [], [], [g.T()] + g.leaf(rng.choice(["fall", "fall", "ret", "reraise"]))), g.T()]
+                    elif wrap == "with":
+                        body = [("with", [(next(g.m), None, True)], body), g.T()]
+                    progs.append(("K", body))
+    nk = 450 if tier == "quick" else 6000
+    if search:
+        nk *= 3
+    leaves = LEAVES + KLEAVES * 3
+    for _ in range(nk):
+        g = Gen(rng)
+        body = random_block(g, rng.choice([2, 3, 3, 4, 5]), rng, leaves=leaves, constructs=KCONSTRUCTS)
+        progs.append(("K", wrap_loop(g, body) if rng.random() < 0.4 else body))
+    return progs
+
+
 # ------------------------------------------------------------------ rendering
 def to_src(block, ind=1):
     pad = "    " * ind
@@ -206,6 +256,8 @@ def to_src(block, ind=1):
             out.append(f"{pad}raise {CLS[s[1]]}()" + (f" from {CLS[s[2]]}()" if s[2] is not None else ""))
         elif s[0] == "assert":
             out.append(f"{pad}assert D({s[1]})")
+        elif s[0] == "S":
+            out.append(f"{pad}await S({s[1]})")
         elif s[0] in ("if", "while"):
             out.append(f"{pad}{s[0]} D({s[1]}):")
             out += to_src(s[2], ind + 1)
@@ -325,8 +377,10 @@ def features(block, acc=None, in_else=False):
             if any(len(it) > 4 and it[4] is not None for it in s[1]):
                 acc.add("with-exit-raises")
             features(s[2], acc, in_else)
-        elif s[0] == "raise" and (s[1] == 13 or s[2] == 13):
+        elif s[0] == "raise" and (s[1] >= 200 or (s[2] or 0) >= 200):
             acc.add("baseexception")
+        elif s[0] == "S":
+            acc.add("suspend")
     return acc
 
 
@@ -351,20 +405,128 @@ def gen_cases(rng, tier, search):
             c = Case({"src": src, "tape": tape, "family": fam, "features": feats}, line, tags=[fam] + feats)
             c.nontrivial = bool(feats)
             cases.append(c)
-    # value stream without a Lean column: BaseException-only classes
-    for leafslot in range(8 if tier == "quick" else 40):
-        g = Gen(rng)
-        inner = g.leaf("raiseB0")
-        c = rng.choice(["tryexc", "tryany", "tryfin", "tryfull", "with1s", "with1"])
-        body = [build(g, c, [inner if s == 0 else g.leaf("fall") for s in range(SLOTS[c])]), g.T()]
-        if rng.random() < 0.5:
-            body = [("try", body, [(None, [g.T()])], [], [g.T()])]
-        src = "def f():\n" + "\n".join(to_src(body)) + "\n"
-        cases.append(Case({"src": src, "tape": [1, 1], "family": "V", "features": sorted(features(body))}, None,
-                          tags=["V", "baseexception"]))
+    # family K (all four columns): BaseException-only exceptions incl. real task cancellation at a suspension point
+    for fam, body in gen_k_programs(rng, tier, search):
+        src = "async def f():\n" + "\n".join(to_src(body)) + "\n"
+        try:
+            compile(src, "t", "exec")
+        except SyntaxError:
+            continue
+        feats = sorted(features(body))
+        tapes = [[2] * 10, [rng.choice([0, 1, 1, 2, 2]) for _ in range(rng.randrange(1, 10))]]
+        if "suspend" in feats:
+            tapes.append([rng.choice([1, 1, 2]) for _ in range(10)])
+        for tape in tapes:
+            key = (src, tuple(tape))
+            if key in seen:
+                continue
+            seen.add(key)
+            line = "C02 " + sx(["run", ["tape"] + tape, to_sx(body)])
+            c = Case({"src": src, "tape": tape, "family": fam, "mode": "async", "features": feats, "line": line}, line,
+                     tags=[fam] + feats)
+            cases.append(c)
+    cases += pending_return_cases(rng, tier, search)
     cases += iter_cases(rng, tier)
     cases += glue_cases(rng, tier)
     return cases
+
+
+# ------------------------------------------------------------------ families R and W: a pending `return <value>` is per activation
+# Between `ast_return` and `EvalFunc.call` the EvalReturn marker travels up through finally clauses and manager exits, which run
+# arbitrary script code: they may call the same function again (R) or suspend while another task runs it (W; every task
+# has its own AstEval but shares the EvalFunc and its AST).  Each activation must deliver the value of ITS return statement.
+# Tied to the Lean marker store (`markers` command: one fresh marker object per execution of a return statement).
+WRAPS = {"for": "for _ in range(2):", "while": "while True:", "if": "if {v} >= 0:", "with": "with CM(9, None, False):",
+         "tryexc": "try:", "tryfin": "try:"}
+
+
+def _wrap_lines(wrappers, inner, var):
+    """nest `inner` (list of lines) inside the wrapper statements"""
+    lines = inner
+    for wname in reversed(wrappers):
+        lines = [WRAPS[wname].format(v=var)] + ["    " + l for l in lines]
+        if wname == "tryexc":
+            lines += ["except E1:", "    T(99)"]
+        elif wname == "tryfin":
+            lines += ["finally:", "    T(98)"]
+    return lines
+
+
+def gen_rec(rng):
+    hold = rng.choice(["finally", "finally", "exit", "finally-in-with", "else-finally"])
+    wrappers = [rng.choice(list(WRAPS)) for _ in range(rng.choice([0, 1, 1, 2]))]
+    depth = rng.choice([1, 2, 2, 3])
+    k = rng.randrange(1, 10)
+    rec = ["T(20 + {n})", "if {n} > 0:", "    TR({n} - 1, g({n} - 1))"]
+    head = []
+    if hold == "exit":
+        head = ["class M:", "    def __init__(self, n):", "        self.n = n", "    def __enter__(self):", "        T(30 + self.n)",
+                "        return self", "    def __exit__(self, t, v, tb):"] + \
+               ["        " + l.format(n="self.n") for l in rec] + ["        return False"]
+        core = ["with M(n):", "    T(10 + n)", f"    return n * 10 + {k}"]
+    elif hold == "finally-in-with":
+        core = ["with CM(8, None, False):", "    try:", "        T(10 + n)", f"        return n * 10 + {k}", "    finally:"] + \
+               ["        " + l.format(n="n") for l in rec]
+    elif hold == "else-finally":
+        core = ["try:", "    T(10 + n)", "except E1:", "    T(97)", "else:", f"    return n * 10 + {k}", "finally:"] + \
+               ["    " + l.format(n="n") for l in rec]
+    else:
+        core = ["try:", "    T(10 + n)", f"    return n * 10 + {k}", "finally:"] + ["    " + l.format(n="n") for l in rec]
+    body = _wrap_lines(wrappers, core, "n")
+    src = "\n".join(head + ["def g(n):"] + ["    " + l for l in body] + ["def f():", f"    return [g({depth}), g(0)]"]) + "\n"
+    # marker events: activations depth..0 execute the return statement (node 0) innermost last, are consumed innermost first;
+    # then the second call g(0) is activation 100
+    evs = [["ret", a, 0, a * 10 + k] for a in range(depth, -1, -1)] + [["take", a] for a in range(0, depth + 1)] + \
+          [["ret", 100, 0, k], ["take", 100]]
+    return src, {"depth": depth, "hold": hold, "wrappers": wrappers}, evs
+
+
+def gen_tasks(rng):
+    hold = rng.choice(["finally", "finally", "aexit", "finally-in-with", "finally-in-asyncwith"])
+    wrappers = [rng.choice(list(WRAPS)) for _ in range(rng.choice([0, 1, 1, 2]))]
+    ntask = rng.choice([2, 2, 3])
+    k = rng.randrange(1, 10)
+    wait = ["TT(tag, 2)", "await GATE(tag)", "TT(tag, 3)"]
+    if hold == "aexit":
+        core = ["async with Hold(tag):", "    TT(tag, 1)", f"    return tag * 1000 + {k}"]
+    elif hold == "finally-in-with":
+        core = ["with CM(8, None, False):", "    try:", "        TT(tag, 1)", f"        return tag * 1000 + {k}", "    finally:"] + \
+               ["        " + l for l in wait]
+    elif hold == "finally-in-asyncwith":
+        core = ["async with Hold(tag):", "    try:", "        TT(tag, 1)", f"        return tag * 1000 + {k}", "    finally:"] + \
+               ["        " + l for l in wait]
+    else:
+        core = ["try:", "    TT(tag, 1)", f"    return tag * 1000 + {k}", "finally:"] + ["    " + l for l in wait]
+    body = _wrap_lines(wrappers, core, "tag")
+    src = "\n".join(["async def f(tag):"] + ["    " + l for l in body]) + "\n"
+    starts = list(range(1, ntask + 1))
+    release = starts[:]
+    rng.shuffle(release)
+    # `finally-in-asyncwith` passes two gates (the finally clause, then __aexit__): every task is released twice
+    gates = 2 if hold == "finally-in-asyncwith" else 1
+    evs = [["ret", t, 0, t * 1000 + k] for t in starts] + [["take", t] for t in release]
+    return src, {"starts": starts, "release": release, "gates": gates, "hold": hold, "wrappers": wrappers}, evs
+
+
+def pending_return_cases(rng, tier, search):
+    out, seen = [], set()
+    nr, nw = (60, 90) if tier == "quick" else (600, 900)
+    if search:
+        nr, nw = nr * 3, nw * 3
+    for mode, n, gen in (("rec", nr, gen_rec), ("tasks", nw, gen_tasks)):
+        for _ in range(n):
+            src, sched, evs = gen(rng)
+            key = (src, repr(sched))
+            if key in seen:
+                continue
+            seen.add(key)
+            compile(src, "t", "exec")
+            fam = "R" if mode == "rec" else "W"
+            line = "C02 " + sx(["markers"] + evs)
+            feats = ["pending-return", mode, sched["hold"]]
+            out.append(Case({"src": src, "tape": [], "family": fam, "mode": mode, "sched": sched, "features": feats,
+                             "line": line}, line, tags=[fam] + feats + ["wrap:" + w for w in sched["wrappers"]]))
+    return out
 
 
 # ------------------------------------------------------------------ glue stream (no Lean column)
@@ -527,8 +689,50 @@ class B0(BaseException):
     pass
 
 
-def make_globals(tape, log):
+def make_globals(tape, log, ctl=None):
     tape = list(tape)
+    ctl = ctl if ctl is not None else {}
+    ctl.update({"cancel_req": False, "entered": {}, "gate": {}})
+
+    def TR(a, v):
+        """logs the value activation `a` returned to the finally clause / __exit__ that called it"""
+        log.append(f"R{a}={v}")
+
+    def TT(tag, i):
+        log.append(f"T{tag}.{i}")
+
+    async def S(i):
+        """a suspension point: logs T(i), consumes one tape cell; 2 = the driver cancels the task while it waits here"""
+        d = D(i)
+        if d == 2:
+            ctl["cancel_req"] = True
+            await asyncio.Event().wait()
+        else:
+            await asyncio.sleep(0)
+
+    async def _gate(tag):
+        ctl["entered"][tag] = True
+        while not ctl["gate"].get(tag):
+            await asyncio.sleep(0)
+        ctl["gate"][tag] = False
+
+    async def GATE(tag):
+        log.append(f"G{tag}")
+        await _gate(tag)
+
+    class Hold:
+        """async manager (host object) whose __aexit__ waits on the task's gate"""
+        def __init__(self, tag):
+            self.tag = tag
+
+        async def __aenter__(self):
+            log.append(f"aen{self.tag}")
+            return self
+
+        async def __aexit__(self, t, v, tb):
+            log.append(f"aex{self.tag}:{CLSNUM.get(t.__name__, t.__name__) if t else '-'}")
+            await _gate(self.tag)
+            return False
 
     def T(i):
         log.append(f"T{i}")
@@ -582,7 +786,8 @@ def make_globals(tape, log):
                 raise self.er()
             return self.sup
 
-    return {"T": T, "T2": T2, "TX": TX, "RX": RX, "CMX": CMX, "D": D, "CM": CM, "E0": E0, "E1": E1, "E2": E2, "B0": B0}
+    return {"T": T, "T2": T2, "TX": TX, "RX": RX, "CMX": CMX, "D": D, "CM": CM, "E0": E0, "E1": E1, "E2": E2, "B0": B0,
+            "TR": TR, "TT": TT, "S": S, "GATE": GATE, "Hold": Hold}
 
 
 def canon_exc(e):
@@ -600,55 +805,171 @@ def canon(log, kind, val):
     return ",".join(log) + "|" + r
 
 
-async def run_pyscript(src, tape):
+async def _guarded(coro):
+    """nothing escapes the task (SystemExit / KeyboardInterrupt would otherwise stop the event loop)"""
+    try:
+        return ("ret", await coro)
+    except BaseException as e:  # pylint: disable=broad-except
+        return ("exc", e)
+
+
+async def drive_async(entry, log, ctl):
+    """run `entry()` as a task; whenever it asks for it at a suspension point (S with tape value 2) cancel it from outside"""
+    task = asyncio.ensure_future(_guarded(entry()))
+    for _ in range(3000):
+        if task.done():
+            break
+        if ctl["cancel_req"]:
+            ctl["cancel_req"] = False
+            task.cancel()
+        await asyncio.sleep(0)
+    else:
+        task.cancel()
+        return canon(log, "ret", "HANG")
+    kind, val = task.result()
+    return canon(log, kind, val)
+
+
+async def drive_tasks(entry, log, ctl, sched):
+    """start the tasks one after the other (each runs until it waits on its gate with `return` pending), then open the gates
+    in the release order; returns (canonical string, results string)"""
+    tasks = {}
+
+    async def until(pred):
+        for _ in range(2000):
+            if pred():
+                return True
+            await asyncio.sleep(0)
+        return False
+
+    ok = True
+    for t in sched["starts"]:
+        tasks[t] = asyncio.ensure_future(_guarded(entry(t)))
+        ok = await until(lambda: ctl["entered"].get(t) or tasks[t].done()) and ok  # pylint: disable=cell-var-from-loop
+    for rnd in range(sched["gates"]):
+        for t in sched["release"]:
+            ctl["entered"][t] = False
+            ctl["gate"][t] = True
+            last = rnd == sched["gates"] - 1
+            ok = await until(lambda: tasks[t].done() or (not last and ctl["entered"].get(t))) and ok  # pylint: disable=cell-var-from-loop
+    res = []
+    for t in sched["release"]:
+        if not tasks[t].done():
+            tasks[t].cancel()
+            res.append(f"{t}=HANG")
+            continue
+        kind, val = tasks[t].result()
+        res.append(f"{t}={val}" if kind == "ret" else f"{t}={canon_exc(val)}")
+    results = ",".join(res)
+    return ",".join(log) + "|" + results, results
+
+
+def rec_results(canon_str, sched):
+    """families R: the value every activation delivered - the inner ones were logged by TR, the two outer ones are f()'s list"""
+    log, _, res = canon_str.partition("|")
+    inner = [e[1:] for e in log.split(",") if e.startswith("R") and "=" in e]
+    m = re.match(r"ret:\[(.*), (.*)\]$", res)
+    if not m:
+        return ",".join(inner) + "," + res
+    return ",".join(inner + [f"{sched['depth']}={m.group(1)}", f"100={m.group(2)}"])
+
+
+async def _ps_env(src, tape, log):
+    import interp_env
+    ctl = {}
+    G = make_globals(tape, log, ctl)
+    g, a = interp_env.new_ctx("c02", G)
+    a.parse(src)
+    await a.eval()
+    return G, g, ctl
+
+
+async def run_pyscript(src, tape, mode="sync", sched=None):
+    """returns (canonical observation, tied string = what the Lean model column must equal)"""
     import interp_env
     log = []
-    G = make_globals(tape, log)
-    g, a = interp_env.new_ctx("c02", G)
     try:
-        a.parse(src)
-        await a.eval()
+        G, g, ctl = await _ps_env(src, tape, log)
+        if mode == "async":
+            r = await drive_async(lambda: G["f"](), log, ctl)
+            return r, r
+        if mode == "tasks":
+            def entry(tag):
+                # one interpreter context per task, like one per trigger run; the EvalFunc (and its AST) is shared
+                a2 = interp_env.AstEval(f"c02.t{tag}", global_ctx=g)
+                interp_env.Function.install_ast_funcs(a2)
+                return G["f"].call(a2, tag)
+            return await drive_tasks(entry, log, ctl, sched)
         val = await G["f"]()
-        return canon(log, "ret", val)
+        r = canon(log, "ret", val)
     except BaseException as e:  # pylint: disable=broad-except
-        return canon(log, "exc", e)
+        r = canon(log, "exc", e)
+    return r, (rec_results(r, sched) if mode == "rec" else r)
 
 
-def run_cpython(src, tape):
+async def run_cpython_async(src, tape, mode, sched):
+    log, ctl = [], {}
+    G = make_globals(tape, log, ctl)
+    try:
+        exec(compile(src, "t", "exec"), G)  # pylint: disable=exec-used
+        if mode == "async":
+            r = await drive_async(lambda: G["f"](), log, ctl)
+            return r, r
+        return await drive_tasks(lambda tag: G["f"](tag), log, ctl, sched)
+    except BaseException as e:  # pylint: disable=broad-except
+        r = canon(log, "exc", e)
+        return r, r
+
+
+def run_cpython(src, tape, mode="sync", sched=None, loop=None):
+    if mode in ("async", "tasks"):
+        return loop.run_until_complete(run_cpython_async(src, tape, mode, sched))
     log = []
     G = make_globals(tape, log)
     try:
         exec(compile(src, "t", "exec"), G)  # pylint: disable=exec-used
-        return canon(log, "ret", G["f"]())
+        r = canon(log, "ret", G["f"]())
     except BaseException as e:  # pylint: disable=broad-except
-        return canon(log, "exc", e)
+        r = canon(log, "exc", e)
+    return r, (rec_results(r, sched) if mode == "rec" else r)
 
 
-def _worker(items):
+def run_pair(loop, p):
+    """(pyscript observation, pyscript tied, CPython observation, CPython tied) of one payload"""
+    mode, sched = p.get("mode", "sync"), p.get("sched")
+    a, at = loop.run_until_complete(run_pyscript(p["src"], p["tape"], mode, sched))
+    b, bt = run_cpython(p["src"], p["tape"], mode, sched, loop)
+    return a, at, b, bt
+
+
+def _new_loop():
     import interp_env
     loop = asyncio.new_event_loop()
     asyncio.set_event_loop(loop)
     interp_env.setup_stub(loop)
-    out = []
-    for src, tape in items:
-        a = loop.run_until_complete(run_pyscript(src, tape))
-        b = run_cpython(src, tape)
-        out.append((a, b))
+    return loop
+
+
+def _worker(items):
+    loop = _new_loop()
+    out = [run_pair(loop, p) for p in items]
     loop.close()
     return out
 
 
 def run_impl(cases):
-    items = [(c.payload["src"], c.payload["tape"]) for c in cases]
+    import interp_env  # noqa: F401  imported BEFORE forking: the workers inherit the loaded Home Assistant modules
+    items = [{k: c.payload.get(k) for k in ("src", "tape", "mode", "sched") if c.payload.get(k) is not None} for c in cases]
     nshard = 12
     shards = [items[i::nshard] for i in range(nshard)]
     res = common.pmap(_worker, shards, workers=nshard, chunk=1) if len(items) > 200 else [_worker(s) for s in shards]
     for si, shard in enumerate(res):
-        for j, (a, b) in enumerate(shard):
+        for j, (a, at, b, bt) in enumerate(shard):
             c = cases[si + j * nshard]
-            c.impl = f"model={a} spec={b}"
+            c.impl = f"model={at} spec={bt}"
             c.payload["pyscript"] = a
             c.payload["cpython"] = b
+            c.payload["tied"] = at
 
 
 def verdict(c):
@@ -659,39 +980,51 @@ def verdict(c):
 
 def classify(c, reason):
     f = set(c.payload.get("features", []))
+    ps, cp = c.payload.get("pyscript") or "", c.payload.get("cpython") or ""
     if c.line is not None and c.model is not None:
         m = re.match(r"model=(\S*) spec=", c.model)
-        if not m or m.group(1) != c.payload.get("pyscript"):
+        if not m or m.group(1) != c.payload.get("tied", ps):
             # the model does not reproduce this behaviour: not one of the modelled (known) deviations
             return "unmodelled:" + "+".join(sorted(f))
-    for k in ("baseexception", "stopiteration"):      # open findings (C02-F1..F3 are fixed and must never be excused)
-        if k in f:
-            return k
+        # C02-F4 excuses exactly what the Lean model of today's code does with a BaseException-only exception: it passes the
+        # `except` clauses and reaches `__exit__` without exception info - and the finally clause RUNS (C02_finally_every_outcome).
+        # Only a deviation that this model reproduces event by event gets the signature; a skipped finally never does.
+        if f & {"baseexception", "suspend"}:
+            return "baseexception"
+    # C02-F5 excuses exactly: the StopIteration of a called function surfaces as RuntimeError(cause StopIteration) where CPython
+    # went on; everything pyscript did before that point must be what CPython did
+    if "stopiteration" in f and ps.endswith("|exc:100/StopIteration") and cp.startswith(ps.split("|")[0]):
+        return "stopiteration"
     return "other:" + "+".join(sorted(f))
 
 
 def replay_cases(obj):
     p = obj["case"]
-    # rebuild the driver line from the source is not possible; replays re-run impl vs CPython (the property)
-    return [Case({"src": p["src"], "tape": p["tape"], "family": p.get("family", "R"), "features": p.get("features", [])},
-                 None)]
+    # replays re-run impl vs CPython (the property); the driver line is kept in the payload of the tied families
+    q = {"src": p["src"], "tape": p["tape"], "family": p.get("family", "R"), "features": p.get("features", [])}
+    for k in ("mode", "sched", "line"):
+        if p.get(k) is not None:
+            q[k] = p[k]
+    return [Case(q, p.get("line"))]
 
 
 def shrink(c, reason):
     """drop statements line by line while the disagreement persists (source level)"""
-    import interp_env
-    loop = asyncio.new_event_loop()
-    asyncio.set_event_loop(loop)
-    interp_env.setup_stub(loop)
-    src, tape = c.payload["src"], c.payload["tape"]
+    loop = _new_loop()
+    p = c.payload
+
+    def obs(s):
+        a, _, b, _ = run_pair(loop, dict(p, src=s))
+        return a, b
 
     def bad(s):
         try:
             compile(s, "t", "exec")
         except SyntaxError:
             return False
-        return loop.run_until_complete(run_pyscript(s, tape)) != run_cpython(s, tape)
-    lines = src.split("\n")
+        a, b = obs(s)
+        return a != b
+    lines = p["src"].split("\n")
     changed = True
     while changed:
         changed = False
@@ -703,9 +1036,9 @@ def shrink(c, reason):
                     changed = True
                     break
     final = "\n".join(lines)
-    ps, cp = loop.run_until_complete(run_pyscript(final, tape)), run_cpython(final, tape)
+    ps, cp = obs(final)
     loop.close()
-    c2 = Case(dict(c.payload, src=final, pyscript=ps, cpython=cp, original_src=src), c.line, c.tags)
+    c2 = Case(dict(c.payload, src=final, pyscript=ps, cpython=cp, original_src=p["src"]), c.line, c.tags)
     c2.impl, c2.model, c2.spec = c.impl, c.model, c.spec
     return c2
 
